@@ -11,6 +11,10 @@ CTX_PROGS = ['a.$substringBefore("-")', 'list.s.$substringAfter("-")', '$pad(?, 
              '$replace(a, /-/, "+")', 'a ~> $replace("-", "+", 1)', 'a ~> $replace("-", "+")', 'a ~> $substring(1, 3)', 'nums ~> $reduce(function($p,$q){$p+$q}, 100)',
              '($f := function($a,$b,$c,$d){[$a,$b,$c,$d]}; a ~> $f(10, 20, 30))', '($f := function($a,$b,$c,$d,$e,$g){$a & $b & $c & $d & $e & $g}; a ~> $f(1,2,3,4,5))',
              '($f := function($a,$b,$c,$d,$e,$g,$h){$a & $g & $h}; a ~> $f(1,2,3,4,5,6))', '($f := function($a,$b,$c,$d,$e,$g,$h,$i){$a & $h & $i}; a ~> $f(1,2,3,4,5,6,7))', 'a ~> $pad(20, "#") ~> $replace("#", "=", 2)', '( $f := function($x){$x * 2}; nums.$f($) )', '$reduce(nums, function($p,$q){$p + $q})', '$string($) & $string($)', '$keys($)',
+             # date parsing/formatting with and without explicit pictures (default layouts must stay what they are)
+             '$toMillis("2018-03-23T10:33:36.617+01:00")', '$toMillis("2018-03-23T10:33:36.617Z")', '$toMillis("2018-03-23")', '$toMillis("23/03/2018", "[D01]/[M01]/[Y0001]")', '$toMillis("2018-03-23 10:33", "[Y0001]-[M01]-[D01] [H01]:[m01]")',
+             '$toMillis("10:33", "[H01]:[m01]")', '$toMillis("2018-03-23T10:33:36+0100")', '$fromMillis($toMillis("2018-03-23T10:33:36.617+01:00"))', '$toMillis("2018", "[Y0001]")', '$toMillis("2018-03-23T10:33:36.617+01:00") - $toMillis("2018-03-23T09:33:36.617Z")',
+             '$fromMillis(1e12, "[Y]/[M]/[D]")', '$fromMillis(1e12)', '$now() = $now()', '$toMillis("23.03.2018", "[D01].[M01].[Y0001]") ~> $fromMillis()',
              # literal positions (also negative and out of range) over arrays whose length changes from input to input
              'nums[-1]', 'nums[-2]', 'nums[-7]', 'nums[0]', 'nums[3]', 'list[-1].s', 'list[-2]', '$.nums[-1] + 0', 'nums[-1][0]', 'nums[[-1, 0]]', 'nums[1.5]', 'nums[-1.5]', '(nums)[-1]', '$append(nums, 1)[-1]', 'list.s[-1]',
              # groupings and constructors whose member values ARE the grouped items (not aggregates of them)
